@@ -207,6 +207,14 @@ func (it *Interp) call(idx int, c string) (tok string) {
 		if !ok {
 			return "bad-op"
 		}
+		// a raw message goes through the typed list wrapper every other time: MessageListWriter.Copy
+		// is documented as "adds a message copy to the list", i.e. Any(raw)
+		if n := len(b); n > 0 && idx%2 == 0 && (spec.Type(b[n-1]) == spec.TypeMessage || spec.Type(b[n-1]) == spec.TypeBigMessage) {
+			if m, err := spec.OpenMessageErr(b); err == nil && len(m.Raw()) == n {
+				lw := spec.NewMessageListWriter(h.list, func(w spec.MessageWriter) spec.MessageWriter { return w })
+				return it.errTok(idx, lw.Copy(rawMessage{m}))
+			}
+		}
 		return it.errTok(idx, h.list.Any(b))
 	case "emsg":
 		if !needL() {
@@ -265,6 +273,11 @@ func (it *Interp) built(idx int, b []byte, err error) string {
 	it.res.Built = true
 	return "ok:" + strconv.Itoa(len(b))
 }
+
+// rawMessage is a MessageType (what generated message types are) over a plain message.
+type rawMessage struct{ m spec.Message }
+
+func (r rawMessage) Unwrap() spec.Message { return r.m }
 
 type scalarWriter interface {
 	Bool(bool) error
